@@ -10,6 +10,8 @@ Shape B.  Families of shards:
 * ``tou``    -- ToUnicode grammar through generated documents: all maps of <= 3 entries from an 8-entry pool x
                spellings x identity encodings; plus ToUnicode over predefined (non-identity) CMaps.
 * ``w``      -- all W arrays of <= 3 items from a 9-item pool (with a range up to CID 65535) x DW x {Identity-H, 90ms-RKSJ-H}; W2/DW2 x vertical CMaps.
+* ``wbound`` -- W and W2 entries (list and range forms) whose first or last CID is 0, 1, 255, 256, 65534 or 65535, and a
+               range whose last CID lies beyond 65535; the CIDs around the boundary are shown.
 * ``ttf``    -- embedded TrueType cmap tables (formats 0, 4, 12; platform filtering) under Adobe-Identity.
 * ``coll``   -- predefined CMap + character collection wiring through a document; odd-length identity strings.
 * ``fb``     -- ToUnicode maps that omit shown codes: fall back to the collection / the embedded TrueType cmap.
@@ -57,7 +59,7 @@ META = {
         "CIDs of the maximal prefix made of defined codes (whole string when every byte belongs to a defined code); "
         "non-trivial = at least one CID expected. codec: one case per (CMap, code point); non-trivial = in scope "
         "(codec form is a single defined code). tou (spellings include one begincmap..endcmap section per entry, and blocks with malformed entries between the well-formed ones) / "
-        "mixres (references and direct dictionaries in one /Font dictionary) / tj / tw, tw1 (word spacing with two-byte codes; with a single-byte code 32) / fb / c2g / w / ttf / coll / one (several composite fonts in one document: "
+        "wbound (W/W2 entries starting or ending at CID 0, 1, 255, 256, 65534, 65535) / mixres (references and direct dictionaries in one /Font dictionary) / tj / tw, tw1 (word spacing with two-byte codes; with a single-byte code 32) / fb / c2g / w / ttf / coll / one (several composite fonts in one document: "
         "-H and -V font of one collection in every load order, two Type0 fonts sharing one descendant with and "
         "without ToUnicode; each such case runs in its own fresh process): one case per generated document, every glyph's "
         "text, advance and pen displacement compared (tou, fb, coll, onebyte, ttf, c2g documents are additionally read "
@@ -524,7 +526,7 @@ TOU_POOL = [
     ("range", b"\x00\xfe", b"\x01\x01", "a"),  # source carries across the low byte
     ("array", b"\x02\x00", b"\x02\x02", ["X", "YY", "\U0001f600"]),
     ("range", b"\x03\x00", b"\x03\x02", "\U0001f600"),  # low surrogate increments
-    ("range", b"\x04\x00", b"\x04\x02", "AB"),  # multi-character target: last unit increments
+    ("range", b"\x04\x00", b"\x04\x02", "fAB"),  # three-unit target (longer than the four incremented bytes): last unit increments
     ("range", b"\x05\xff", b"\x06\x00", "ヿ"),  # target carries across a byte (30FF -> 3100)
     ("char", b"\x00\x20", " "),
 ]
@@ -852,6 +854,65 @@ def make_classify_w2(seq):
         return f"C07/widths2:{kind}:with-indirect-element" if indirect and kind in ("adv", "pen") else None
 
     return classify
+
+
+# ------------------------------------------------------------------ W / W2 at the boundary CIDs
+WB_CIDS = [0, 1, 255, 256, 65534, 65535]
+WB_FORMS = ["list-starts", "list-ends", "range-starts", "range-ends", "range-single", "range-to-70000"]
+
+
+def wbound_cases():
+    for b in WB_CIDS:
+        for form in WB_FORMS:
+            for v in (False, True):
+                yield ("wbound", b, form, v)
+
+
+def build_wbound(b: int, form: str, vertical: bool):
+    """One W (W2) entry whose first or last CID is b; the CIDs around b are shown."""
+    lo = max(b - 1, 0)
+    hi = min(b + 1, 65535)
+    m: Dict[int, int] = {}
+    if form == "list-starts":
+        n = hi - b + 1
+        ws = [300 + 10 * i for i in range(n)]
+        item = ("list", b, ws)
+        m = {b + i: w for i, w in enumerate(ws)}
+    elif form == "list-ends":
+        ws = [300 + 10 * i for i in range(b - lo + 1)]
+        item = ("list", lo, ws)
+        m = {lo + i: w for i, w in enumerate(ws)}
+    elif form == "range-starts":
+        item = ("range", b, hi, 450)
+        m = {c: 450 for c in range(b, hi + 1)}
+    elif form == "range-ends":
+        item = ("range", lo, b, 450)
+        m = {c: 450 for c in range(lo, b + 1)}
+    elif form == "range-single":
+        item = ("range", b, b, 450)
+        m = {b: 450}
+    else:
+        item = ("range", b, 70000, 450)  # a last CID beyond the 16-bit CID space covers everything up to 65535
+        m = {c: 450 for c in range(b, min(b + 3, 65536))}
+        m[65535] = 450
+    shown = sorted({lo, b, hi, 65535} | ({b + 2} if b + 2 <= 65535 else set()))
+    if form != "range-to-70000":
+        shown = sorted({lo, b, hi} | ({b + 2} if b + 2 <= 65535 else set()) | ({b - 2} if b >= 2 else set()))
+    extra: Dict[str, Any] = {}
+    if vertical:
+        if item[0] == "list":
+            extra["W2"] = [item[1], [x for w in item[2] for x in (-w, 250, 800)]]
+        else:
+            extra["W2"] = [item[1], item[2], -item[3], 250, 800]
+        extra["DW2"] = [880, -600]
+        exp = [{"text": "(cid:%d)" % c, "adv": Fraction(-m[c] if c in m else -600) * FS / 1000, "vx": Fraction(250) if c in m else None, "vert": True,
+                "wtag": "W2-boundary" if c in m else "DW2", "note": f"cid {c}"} for c in shown]
+    else:
+        extra["W"] = [item[1], list(item[2])] if item[0] == "list" else [item[1], item[2], item[3]]
+        extra["DW"] = 600
+        exp = [{"text": "(cid:%d)" % c, "adv": Fraction(m.get(c, 600)) * FS / 1000, "wtag": "W-boundary" if c in m else "DW", "note": f"cid {c}"} for c in shown]
+    pdf = type0_doc("Identity-V" if vertical else "Identity-H", [b"".join(c.to_bytes(2, "big") for c in shown)], extra=extra)
+    return pdf, exp, vertical
 
 
 # ------------------------------------------------------------------ ttf family
@@ -1619,6 +1680,9 @@ def doc_case(c):
     if kind == "tw":
         pdf, exp, v = build_tw(c[1], c[2], c[3])
         return pdf, exp, v, "C07/word-spacing", {"encoding": TW_FONTS[c[1]], "operator": c[2], "Tw": c[3]}, classify_tw
+    if kind == "wbound":
+        pdf, exp, v = build_wbound(c[1], c[2], c[3])
+        return pdf, exp, v, "C07/widths-boundary", {"cid": c[1], "form": c[2], "vertical": c[3]}, None
     if kind == "mixres":
         pdf, exp, v = build_mixres(c[1], c[2])
         return pdf, exp, v, "C07/mixed-font-resources", {"layout": [list(x) for x in MIXRES_LAYOUTS[c[1]]], "show": c[2]}, classify_mixres
@@ -1660,6 +1724,7 @@ def all_doc_cases(tier: str) -> List[tuple]:
     out += list(odd_cases())
     out += list(onebyte_cases())
     out += list(tj_cases(tier))
+    out += list(wbound_cases())
     out += list(mixres_cases())
     out += list(tw_cases())
     out += list(tw1_cases())
